@@ -1,4 +1,5 @@
 import UtilModel.Core.LTSHash
+import UtilModel.Core.LTSComplete
 import UtilModel.Memo.Props
 /-!
 # Memo — end-to-end transfer
@@ -13,5 +14,49 @@ theorem C16_accepted_memo (cap fuel : Nat) (h : List Memo.Obs)
     (ha : Memo.model.acceptsH cap fuel h = true) : Memo.monC16memo.accepts h = true :=
   acceptedH_satisfies Memo.model (fun h => Memo.monC16memo.accepts h = true)
     Memo.C16_obs_memo cap fuel h ha
+
+end UtilModel
+
+/-! ## completeness of the candidate lists — a REJECT is about the model -/
+namespace UtilModel
+
+/-- every enabled internal event of the Memo model is in its candidate list -/
+theorem Memo.cands_complete (s s' : Memo.St) (e : Memo.Ev) (hs : Memo.step s e = some s')
+    (ho : e.obs = none) : e ∈ Memo.model.cands s := by
+  show e ∈ (List.range s.th.length).flatMap fun t => [Memo.Ev.swap t, .close t, .read t]
+  cases e <;> simp [Memo.Ev.obs] at ho <;> simp only [Memo.step] at hs
+  all_goals
+    split at hs <;> try simp at hs
+    rename_i h
+    first
+      | (have hlt := lt_of_getElem? h
+         simp only [List.mem_flatMap, List.mem_range]
+         exact ⟨_, hlt, by simp⟩)
+      | (rename_i h2
+         have hlt := lt_of_getElem? h2
+         simp only [List.mem_flatMap, List.mem_range]
+         exact ⟨_, hlt, by simp⟩)
+
+/-- every enabled observable event is among the events tried for its observable (the function
+entry / return may belong to any call in flight) -/
+theorem Memo.evs_complete (s s' : Memo.St) (e : Memo.Ev) (o : Memo.Obs)
+    (hs : Memo.step s e = some s') (ho : e.obs = some o) : e ∈ o.evs s.th.length := by
+  cases e <;> simp [Memo.Ev.obs] at ho <;> subst ho <;> simp [Memo.Obs.evs]
+  all_goals
+    simp only [Memo.step] at hs
+    split at hs <;> try simp at hs
+    rename_i h
+    exact lt_of_getElem? h
+
+theorem complete_memo : Memo.model.Complete :=
+  ⟨fun s e s' hs ho => Memo.cands_complete s s' e hs ho,
+   fun s e s' o hs ho => Memo.evs_complete s s' e o hs ho⟩
+
+/-- **A REJECT of the MemoizeFunc correspondence is about the model.** -/
+theorem reject_sound_memo (cap fuel : Nat) (h : List Memo.Obs) (i : Nat)
+    (hfail : (Memo.model.accRunH cap fuel [Memo.model.init] h 0 false 1).failedAt = some i)
+    (htr : (Memo.model.accRunH cap fuel [Memo.model.init] h 0 false 1).truncated = false) :
+    ¬ ∃ es s, Memo.model.run Memo.model.init es = some s ∧ es.filterMap Memo.model.obs = h :=
+  rejectH_sound Memo.model complete_memo cap fuel h i hfail htr
 
 end UtilModel
